@@ -44,9 +44,10 @@ Qed.
 
 (* ---- coupling of the model's waiting requests with the monitor's streams -- *)
 Definition wrel (w : wstream) (m : mstream) : Prop :=
-  w_sid w = m_sid m /\ w_peer w = m_peer m /\
-  In (w_addr w) (m_addrs m) /\ usable (w_addr w) = true /\ 0 < w_remain w /\
-  exists n, m_asked m = Some n /\ n - w_remain w <= m_sent m.
+  w_sid w = m_sid m /\ w_peer w = m_peer m /\ w_obs w = m_obs m /\
+  if w_req w then m_addrs m = [] /\ m_asked m = None
+  else In (w_addr w) (m_addrs m) /\ usable (w_addr w) = true /\ 0 < w_remain w /\
+       exists n, m_asked m = Some n /\ n - w_remain w <= m_sent m.
 
 Definition srel (s : sstate) (l : list mstream) : Prop :=
   Forall2 wrel (s_wait s) l /\ NoDup (map w_sid (s_wait s)).
@@ -167,7 +168,11 @@ Qed.
 Lemma wrel_add_sent : forall w m d, 0 <= d -> wrel w m ->
   wrel w (mkM (m_sid m) (m_peer m) (m_obs m) (m_addrs m) (m_asked m) (m_sent m + d)).
 Proof.
-  intros w m d Hd [A [B [C [D [E [n [F G]]]]]]]. repeat split; auto. exists n. cbn. split; [exact F|lia].
+  intros w m d Hd [A [B [O C]]]. unfold wrel. cbn [m_sid m_peer m_obs m_addrs m_asked m_sent].
+  split; [exact A|]. split; [exact B|]. split; [exact O|].
+  destruct (w_req w); [exact C|].
+  destruct C as [C [D [E [n [F G]]]]]. split; [exact C|]. split; [exact D|]. split; [exact E|].
+  exists n. split; [exact F|lia].
 Qed.
 
 Definition add_sent (sid d : Z) (l : list mstream) : list mstream :=
@@ -220,12 +225,56 @@ Proof.
   rewrite Hd. apply IH, H2.
 Qed.
 
+Definition set_addrs (sid : Z) (addrs : list addr) (l : list mstream) : list mstream :=
+  map (fun s => if m_sid s =? sid
+                then match m_addrs s, m_asked s with
+                     | [], None => mkM (m_sid s) (m_peer s) (m_obs s) addrs None (m_sent s)
+                     | _, _ => s
+                     end
+                else s) l.
+
+Lemma set_addrs_sid1 : forall sid addrs s,
+  m_sid (if m_sid s =? sid
+         then match m_addrs s, m_asked s with
+              | [], None => mkM (m_sid s) (m_peer s) (m_obs s) addrs None (m_sent s)
+              | _, _ => s
+              end
+         else s) = m_sid s.
+Proof.
+  intros. destruct (m_sid s =? sid); [|reflexivity].
+  destruct (m_addrs s); [destruct (m_asked s)|]; reflexivity.
+Qed.
+
+Lemma set_addrs_sids : forall sid addrs l, map m_sid (set_addrs sid addrs l) = map m_sid l.
+Proof.
+  intros. unfold set_addrs. rewrite map_map. apply map_ext. intro s. apply set_addrs_sid1.
+Qed.
+
+Lemma drop_set_addrs : forall sid addrs l, drop_stream sid (set_addrs sid addrs l) = drop_stream sid l.
+Proof.
+  intros. unfold drop_stream, set_addrs. induction l as [|m r IH]; [reflexivity|].
+  cbn [map filter]. rewrite set_addrs_sid1. destruct (m_sid m =? sid) eqn:E; cbn [negb]; [exact IH|].
+  rewrite IH. reflexivity.
+Qed.
+
+Lemma find_set_addrs : forall sid addrs l m0, find_stream sid l = Some m0 ->
+  m_addrs m0 = [] -> m_asked m0 = None ->
+  let m1 := mkM (m_sid m0) (m_peer m0) (m_obs m0) addrs None (m_sent m0) in
+  find_stream sid (set_addrs sid addrs l) = Some m1 /\ In m1 (set_addrs sid addrs l).
+Proof.
+  induction l as [|x r IH]; intros m0 H Ha Hk; cbn [find_stream find] in H; [discriminate|].
+  unfold set_addrs. cbn [map find_stream find]. rewrite set_addrs_sid1. destruct (m_sid x =? sid) eqn:E.
+  - inversion H; subst. rewrite Ha, Hk. split; [reflexivity|left; reflexivity].
+  - destruct (IH _ H Ha Hk) as [A B]. split; [exact A|right; exact B].
+Qed.
+
 (* hypotheses on the inputs of the model: the RNG draws NumBytes in
    [minHandshakeSizeBytes, maxHandshakeSizeBytes), and the harness' claim
    about each message's payload is consistent with its length *)
 Definition op_wf (o : sop) : Prop :=
   match o with
   | SReq _ _ _ _ _ _ n => minHandshakeSizeBytes <= n < maxHandshakeSizeBytes
+  | SLate _ _ _ _ n => minHandshakeSizeBytes <= n < maxHandshakeSizeBytes
   | SData _ m => msg_wf m = true
   | _ => True
   end.
@@ -237,7 +286,7 @@ Lemma step_ok : forall c s l o s' evs, srel s l -> op_wf o -> s_step c s o = (s'
   exists l1 l2, dmon_stimulus l o evs = inl l1 /\ dmon_events l1 evs = inl l2 /\ srel s' l2.
 Proof.
   intros c s l o s' evs [F N] Hwf H. pose proof (f2_sids _ _ F) as Hsids.
-  destruct o as [sid p obs t good addrs n|sid m|sid|t]; cbn [s_step] in H.
+  destruct o as [sid p obs t good addrs n|sid p obs t|sid t good addrs n|sid m|sid|t]; cbn [s_step] in H.
   - (* a new request *)
     cbn [op_wf] in Hwf. unfold minHandshakeSizeBytes, maxHandshakeSizeBytes in Hwf.
     destruct (find_w sid (s_wait s)) as [w|] eqn:Ef.
@@ -285,7 +334,7 @@ Proof.
         rewrite Z.eqb_refl. reflexivity.
       * split; cbn [s_wait].
         -- apply Forall2_app; [exact F|]. constructor; [|constructor].
-           unfold wrel. cbn. repeat split; auto; try lia. exists n. split; [reflexivity|lia].
+           unfold wrel. cbn. split; [reflexivity|]. split; [reflexivity|]. split; [reflexivity|]. split; [exact Hin|]. split; [exact Hus|]. split; [lia|]. exists n. split; [reflexivity|lia].
         -- rewrite map_app. cbn [map w_sid]. apply nodup_snoc; [exact N|apply find_w_none, Ef].
     + unfold finish_dial in H. inversion H; subst; clear H.
       exists (l ++ [new]), l. split; [exact Hst|]. split; [|split; assumption].
@@ -298,6 +347,112 @@ Proof.
       rewrite Hd. rewrite (find_app_new sid l new Hnot eq_refl). cbn [new m_addrs]. rewrite Hhas.
       cbn [negb andb]. rewrite andb_false_r.
       rewrite (drop_app_new sid l new Hnot eq_refl). reflexivity.
+  - (* a stream that does not send its request yet *)
+    destruct (find_w sid (s_wait s)) as [w|] eqn:Ef.
+    { inversion H; subst. destruct (find_w_some _ _ _ Ef) as [Hi Hs].
+      assert (in_flight sid l = true) by (apply in_flight_true; rewrite <- Hsids, <- Hs; apply in_map, Hi).
+      exists l, l. mon_simpl. rewrite H0. repeat split; auto. }
+    pose proof (find_w_none _ _ Ef) as Hnot. rewrite Hsids in Hnot.
+    set (new := mkM sid p obs [] None 0).
+    assert (Hst : dmon_stimulus l (SOpen sid p obs t) evs = inl (l ++ [new])).
+    { mon_simpl. rewrite (in_flight_false _ _ Hnot). reflexivity. }
+    destruct (rl_accept c (s_rl s) p t) as [l1 ok] eqn:Ea.
+    destruct ok; cbn [negb] in H.
+    + inversion H; subst s' evs; clear H. exists (l ++ [new]), (l ++ [new]).
+      split; [exact Hst|]. split; [reflexivity|]. split; cbn [s_wait].
+      * apply Forall2_app; [exact F|]. constructor; [|constructor].
+        unfold wrel. cbn. repeat split; reflexivity.
+      * rewrite map_app. cbn [map w_sid]. apply nodup_snoc; [exact N|apply find_w_none, Ef].
+    + inversion H; subst s' evs; clear H. exists (l ++ [new]), l.
+      split; [exact Hst|]. split; [|split; assumption].
+      mon_simpl. rewrite (find_app_new sid l new Hnot eq_refl). cbn [andb].
+      rewrite (drop_app_new sid l new Hnot eq_refl). reflexivity.
+  - (* the late request of such a stream *)
+    cbn [op_wf] in Hwf. unfold minHandshakeSizeBytes, maxHandshakeSizeBytes in Hwf.
+    assert (Hst : dmon_stimulus l (SLate sid t good addrs n) evs = inl (set_addrs sid addrs l)) by reflexivity.
+    destruct (find_w sid (s_wait s)) as [w|] eqn:Ef.
+    2:{ inversion H; subst s' evs. exists (set_addrs sid addrs l), (set_addrs sid addrs l).
+        split; [reflexivity|]. split; [reflexivity|]. split; [|exact N].
+        replace (set_addrs sid addrs l) with l; [exact F|]. symmetry.
+        pose proof (find_w_none _ _ Ef) as Hnot. rewrite Hsids in Hnot.
+        unfold set_addrs. apply (map_notin_id sid _ l Hnot). }
+    destruct (find_w_some _ _ _ Ef) as [Hwin Hws].
+    destruct (f2_find _ _ _ _ F Ef) as [m0 [Hf0 [Hrel0 Hm0in]]].
+    destruct Hrel0 as [A [B [O Cx]]].
+    destruct (w_req w) eqn:Ereq; cbn [negb] in H.
+    2:{ (* not waiting for a request: ignored; the monitor's entry has addresses and is left alone *)
+        inversion H; subst s' evs. exists (set_addrs sid addrs l), (set_addrs sid addrs l).
+        split; [reflexivity|]. split; [reflexivity|]. split; [|exact N].
+        unfold set_addrs. rewrite <- (map_id (s_wait s)). apply f2_map; [exact F|].
+        intros x mx Hx Hr. destruct (m_sid mx =? sid) eqn:Ex; [|exact Hr].
+        destruct Hr as [A' [B' [O' C']]]. apply Z.eqb_eq in Ex.
+        assert (x = w) by (apply (nodup_unique (s_wait s)); auto; lia). subst x.
+        rewrite Ereq in C'. destruct (m_addrs mx) eqn:Em; [destruct C' as [[] _]|].
+        unfold wrel. rewrite Ereq, Em.
+        split; [exact A'|]. split; [exact B'|]. split; [exact O'|exact C']. }
+    destruct Cx as [Hnoaddr Hnoask].
+    destruct (find_set_addrs sid addrs l m0 Hf0 Hnoaddr Hnoask) as [Hf1 Hin1]. cbv zeta in Hf1, Hin1.
+    set (m1 := mkM (m_sid m0) (m_peer m0) (m_obs m0) addrs None (m_sent m0)) in *.
+    assert (Hinfl : in_flight sid (set_addrs sid addrs l) = true).
+    { apply in_flight_true. rewrite set_addrs_sids, <- Hsids, <- Hws. apply in_map, Hwin. }
+    assert (Hrest : srel (mkS (s_rl s) (remove_w sid (s_wait s))) (drop_stream sid (set_addrs sid addrs l))).
+    { split; cbn [s_wait]; [rewrite drop_set_addrs; apply f2_filter, F|apply nodup_filter_sids, N]. }
+    assert (Hrest' : forall lx, srel (mkS lx (remove_w sid (s_wait s))) (drop_stream sid (set_addrs sid addrs l))).
+    { intro lx. destruct Hrest as [R1 R2]. split; assumption. }
+    assert (Hend : forall st idx, (st =? ST_OK) && negb (has_usable addrs) = false ->
+                   dmon_events (set_addrs sid addrs l) [ERespond sid st idx] =
+                   inl (drop_stream sid (set_addrs sid addrs l))).
+    { intros st idx Hne. mon_simpl. rewrite Hf1. cbn [m1 m_addrs]. rewrite Hne. reflexivity. }
+    assert (Hreset : dmon_events (set_addrs sid addrs l) [EReset sid] =
+                     inl (drop_stream sid (set_addrs sid addrs l))).
+    { mon_simpl. rewrite Hinfl. reflexivity. }
+    cbv zeta in H.
+    destruct good; cbn [negb] in H.
+    2:{ inversion H; subst s' evs. exists (set_addrs sid addrs l), (drop_stream sid (set_addrs sid addrs l)). split; [reflexivity|]. split; [exact Hreset|apply Hrest']. }
+    destruct (select_addr addrs) as [[idx a]|] eqn:Es.
+    2:{ inversion H; subst s' evs. exists (set_addrs sid addrs l), (drop_stream sid (set_addrs sid addrs l)). split; [reflexivity|].
+        split; [apply Hend; reflexivity|apply Hrest']. }
+    destruct (select_from_sound _ _ _ _ Es) as [Hin [Hus _]].
+    assert (Hhas : has_usable addrs = true).
+    { unfold has_usable. apply existsb_exists. exists a. split; assumption. }
+    assert (Hparse : a_parse a = true).
+    { unfold usable in Hus. apply andb_true_iff in Hus. destruct Hus as [Hus _].
+      apply andb_true_iff in Hus. destruct Hus as [Hus _]. exact Hus. }
+    destruct (need_data (w_obs w) a) eqn:End.
+    + destruct (rl_accept_dd c (s_rl s) t) as [l2 ok2] eqn:Ead.
+      destruct ok2; cbn [negb] in H.
+      2:{ inversion H; subst s' evs. exists (set_addrs sid addrs l), (drop_stream sid (set_addrs sid addrs l)). split; [reflexivity|].
+          split; [apply Hend; reflexivity|apply Hrest']. }
+      destruct (n <=? 0) eqn:En; [apply Z.leb_le in En; lia|].
+      inversion H; subst s' evs; clear H.
+      exists (set_addrs sid addrs l),
+             (map (fun s0 => if m_sid s0 =? sid
+                             then mkM (m_sid s0) (m_peer s0) (m_obs s0) (m_addrs s0) (Some n) 0 else s0)
+                  (set_addrs sid addrs l)).
+      split; [reflexivity|]. split.
+      * mon_simpl. rewrite Hinfl. cbn [negb]. unfold SPEC_MIN_DATA, SPEC_MAX_DATA.
+        replace (30000 <=? n) with true by (symmetry; apply Z.leb_le; lia).
+        replace (n <=? 100000) with true by (symmetry; apply Z.leb_le; lia). cbn [andb negb]. reflexivity.
+      * split; cbn [s_wait].
+        -- unfold set_addrs. rewrite map_map. apply f2_map; [exact F|].
+           intros x mx Hx Hr. destruct Hr as [A' [B' [O' C']]]. rewrite set_addrs_sid1.
+           rewrite <- A'. destruct (w_sid x =? sid) eqn:Ex.
+           ++ apply Z.eqb_eq in Ex. assert (x = w) by (apply (nodup_unique (s_wait s)); auto; lia). subst x.
+              rewrite Ereq in C'. destruct C' as [Ca Ck]. rewrite Ca, Ck.
+              unfold wrel. cbn. split; [reflexivity|]. split; [exact B'|]. split; [exact O'|].
+              split; [exact Hin|]. split; [exact Hus|]. split; [lia|]. exists n. split; [reflexivity|lia].
+           ++ split; [exact A'|]. split; [exact B'|]. split; [exact O'|exact C'].
+        -- rewrite map_map. replace (map _ (s_wait s)) with (map w_sid (s_wait s)); [exact N|].
+           apply map_ext. intro x. destruct (w_sid x =? sid); reflexivity.
+    + unfold finish_dial in H. inversion H; subst s' evs; clear H.
+      exists (set_addrs sid addrs l), (drop_stream sid (set_addrs sid addrs l)). split; [reflexivity|]. split; [|apply Hrest'].
+      mon_simpl.
+      assert (Hd : existsb (dial_by (w_peer w) (a_id a)) (set_addrs sid addrs l) = true).
+      { apply existsb_exists. exists m1. split; [exact Hin1|].
+        unfold dial_by. cbn [m1 m_peer m_addrs m_obs]. rewrite <- B, Z.eqb_refl, Hhas. cbn [andb].
+        apply existsb_exists. exists a. split; [exact Hin|].
+        rewrite Z.eqb_refl, Hparse, <- O, (need_data_false _ _ End). reflexivity. }
+      rewrite Hd, Hf1. cbn [m1 m_addrs]. rewrite Hhas. cbn [negb]. rewrite andb_false_r. reflexivity.
   - (* a dial-data message *)
     cbn [op_wf] in Hwf. pose proof (msg_data_nonneg _ Hwf) as Hd0.
     assert (Hst : dmon_stimulus l (SData sid m) evs = inl (add_sent sid (msg_data m) l)) by reflexivity.
@@ -316,6 +471,8 @@ Proof.
     { intros s1 ->. exists (add_sent sid (msg_data m) l), (drop_stream sid (add_sent sid (msg_data m) l)).
       split; [reflexivity|]. split; [mon_simpl; rewrite Hinfl; reflexivity|].
       split; cbn [s_wait]; [apply f2_filter, F1|apply nodup_filter_sids, N]. }
+    destruct (w_req w) eqn:Ereq.
+    { inversion H; subst s' evs. apply Hreset. reflexivity. }
     destruct m as [L D|].
     2:{ inversion H; subst s' evs. apply Hreset. reflexivity. }
     destruct (dd_step (w_remain w) L) as [| |r'|] eqn:Ed.
@@ -326,16 +483,18 @@ Proof.
       exists (add_sent sid D l), (add_sent sid D l). split; [reflexivity|]. split; [reflexivity|].
       split; cbn [s_wait].
       * unfold add_sent. apply f2_map; [exact F|].
-        intros x mx Hx Hr. destruct Hr as [A [B [C [E [G [n0 [I J]]]]]]].
-        rewrite <- A. destruct (w_sid x =? sid) eqn:Ex.
-        -- apply Z.eqb_eq in Ex. assert (x = w) by (apply (nodup_unique (s_wait s)); auto; lia). subst x.
-           destruct (dd_step_more _ _ _ _ Hwf Ed) as [K1 K2].
-           assert (0 < r').
-           { unfold dd_step in Ed. destruct (L >? maxMsgSize); [discriminate|]. cbv zeta in Ed.
-             destruct (_ && _); [discriminate|]. destruct (_ >? 0) eqn:Eg in Ed; [|discriminate].
-             inversion Ed; subst. lia. }
-           unfold wrel. cbn. repeat split; auto. exists n0. split; [exact I|]. cbn in Hd0. lia.
-        -- unfold wrel. repeat split; auto. exists n0. split; assumption.
+        intros x mx Hx Hr. destruct Hr as [A [B [O Cx]]].
+        rewrite <- A. destruct (w_sid x =? sid) eqn:Ex; [|split; [exact A|split; [exact B|split; [exact O|exact Cx]]]].
+        apply Z.eqb_eq in Ex. assert (x = w) by (apply (nodup_unique (s_wait s)); auto; lia). subst x.
+        rewrite Ereq in Cx. destruct Cx as [C [E [G [n0 [I J]]]]].
+        destruct (dd_step_more _ _ _ _ Hwf Ed) as [K1 K2].
+        assert (0 < r').
+        { unfold dd_step in Ed. destruct (L >? maxMsgSize); [discriminate|]. cbv zeta in Ed.
+          destruct (_ && _); [discriminate|]. destruct (_ >? 0) eqn:Eg in Ed; [|discriminate].
+          inversion Ed; subst. lia. }
+        unfold wrel. cbn. split; [reflexivity|]. split; [exact B|]. split; [exact O|].
+        split; [exact C|]. split; [exact E|]. split; [assumption|].
+        exists n0. split; [exact I|]. cbn in Hd0. lia.
       * rewrite map_map. replace (map _ (s_wait s)) with (map w_sid (s_wait s)); [exact N|].
         apply map_ext. intro x. destruct (w_sid x =? sid); reflexivity.
     + (* enough: dial, answer *)
@@ -344,7 +503,7 @@ Proof.
       destruct (find_add_sent sid D l m0 Hf0) as [Hfs1 Hmin1]. cbv zeta in Hfs1, Hmin1.
       clear ms Hfs Hrel Hmin.
       set (ms := mkM (m_sid m0) (m_peer m0) (m_obs m0) (m_addrs m0) (m_asked m0) (m_sent m0 + D)) in *.
-      destruct Hrel0 as [A [B [C [E [G [n0 [I J]]]]]]].
+      destruct Hrel0 as [A [B [O Cx]]]. rewrite Ereq in Cx. destruct Cx as [C [E [G [n0 [I J]]]]].
       assert (Hdone : w_remain w <= D) by (apply (dd_step_done _ L D Hwf G Ed)).
       assert (Hhas : has_usable (m_addrs m0) = true).
       { unfold has_usable. apply existsb_exists. exists (w_addr w). split; assumption. }
@@ -443,6 +602,7 @@ Lemma dial_on_data_l : forall c s sid L D s' evs q aid,
 Proof.
   intros c s sid L D s' evs q aid H Hin. cbn [s_step] in H.
   destruct (find_w sid (s_wait s)) as [w|]; [|inversion H; subst; destruct Hin].
+  destruct (w_req w); [inversion H; subst; destruct Hin as [A|[]]; discriminate|].
   destruct (dd_step (w_remain w) L) eqn:Ed;
     try (inversion H; subst; destruct Hin as [A|[]]; discriminate).
   - inversion H; subst. destruct Hin.
